@@ -413,10 +413,35 @@ def check(an, rep, tier):
                 n.value.right.value == 1 and
                 isinstance(n.targets[0], ast.Subscript)
                 for n in ast.walk(fk.node))
-    ok = drop and const0 and plus1
+    # the reader's offset, in either spelling: ``pi + 1`` stored as the mode
+    # index, or the enumeration of the coefficients started at 1; a bare
+    # enumeration index (start 0) stored as the mode index is offset 0
+    enum_vars = {}          # loop variable -> start value (int) or None
+    for n in ast.walk(fk.node):
+        it = n.iter if isinstance(n, (ast.For, ast.comprehension)) else None
+        if isinstance(it, ast.Call) and isinstance(it.func, ast.Name) and \
+                it.func.id == 'enumerate' and \
+                isinstance(n.target, ast.Tuple) and \
+                isinstance(n.target.elts[0], ast.Name):
+            st_ = 0
+            if len(it.args) > 1 and isinstance(it.args[1], ast.Constant):
+                st_ = it.args[1].value
+            for k_ in it.keywords:
+                if k_.arg == 'start' and isinstance(k_.value, ast.Constant):
+                    st_ = k_.value.value
+            enum_vars[n.target.elts[0].id] = st_
+    inner = {v: s_ for v, s_ in enum_vars.items()}
+    start1 = any(s_ == 1 for s_ in inner.values())
+    bare0 = any(isinstance(n, ast.Assign) and
+                isinstance(n.targets[0], ast.Subscript) and
+                isinstance(n.value, ast.Name) and
+                inner.get(n.value.id) == 0 for n in ast.walk(fk.node))
+    offset = 1 if (plus1 or start1) else (0 if bare0 else None)
+    ok = drop and const0 and offset == 1
+    bad = (drop and offset == 0) or (offset == 1 and const0 and not drop)
     rep.add('P-offset', 'anova_func.ANOVA_func', 'coeffs: cfs += cur_cf[1:], '
             'cfs[0] += cur_cf[0] ; cores: idx[i] = pi + 1',
-            'ok' if ok else 'violation',
+            'ok' if ok else ('violation' if bad else 'unknown'),
             '' if ok else 'writer and reader of the coefficient offset '
             'disagree (drop=%s const=%s plus1=%s)' % (drop, const0, plus1))
     for mod_, fn_, call in rules_rng.draw_sites(prog):
